@@ -9,5 +9,8 @@ CONSTANTS
   FixAbove = TRUE
   FixLookup = TRUE
   FixOrphan = TRUE
+  PrunedRewind = FALSE
+  FixDisplaced = TRUE
+  KeepDescendants = TRUE
 INVARIANTS TypeOK HeadHeaviestInv TdAdditiveInv CanonIsAncestryInv NothingAboveHeadInv RetrievableInv
 PROPERTIES HeadTdMonotoneProp
